@@ -136,6 +136,9 @@ def gen_definition(rng, tag):
                 vol_vars.append(nm)
     d.iq_vars, d.vol_vars = iq_vars, vol_vars
     d.vectorized = rng.random() < 0.6
+    # a scalar (point-by-point) kernel may treat the origin apart and write the limit there as a whole number:
+    # "if q == 0: return 1".  The q vectors of such a definition start at the origin.
+    d.origin_int = (not d.vectorized) and rng.random() < 0.6
     d.Iq = ("+", gen_expr(rng, iq_vars + ["q", "q"], 3, scalars), ("sdiv", ("var", rng.choice(iq_vars)), ("*", ("var", "q"), ("num", 20.0))))
     d.Iqxy = None
     if rng.random() < 0.3:
@@ -179,9 +182,11 @@ def c_module(d, name):
         t.append('form_volume = "return %s;"' % show(d.form_volume, False))
     if d.shell_volume:
         t.append('shell_volume = "return %s;"' % show(d.shell_volume, False))
-    t.append('Iq = "return %s;"' % show(d.Iq, False))
+    og = "if (q == 0.0) return 1.0; " if getattr(d, "origin_int", False) else ""
+    t.append('Iq = "%sreturn %s;"' % (og, show(d.Iq, False)))
     if d.Iqxy:
-        t.append('Iqxy = "return %s;"' % show(d.Iqxy, False))
+        og = "if (qx == 0.0 && qy == 0.0) return 1.0; " if getattr(d, "origin_int", False) else ""
+        t.append('Iqxy = "%sreturn %s;"' % (og, show(d.Iqxy, False)))
     if d.modes:
         t.append("radius_effective_modes = %r" % ["mode%d" % (i + 1) for i in range(len(d.modes))])
         body = " ".join("if (mode == %d) return %s;" % (i + 1, show(e, False)) for i, e in enumerate(d.modes))
@@ -199,11 +204,15 @@ def py_module(d, name):
     if d.shell_volume:
         t.append("def shell_volume(%s):\n    return %s" % (", ".join(sig(d, "vol", False)), show(d.shell_volume, True)))
     guard = "    if not (%s > %r):\n        return nan*q\n" % d.valid if d.valid else ""
+    if getattr(d, "origin_int", False):
+        guard += "    if q == 0:\n        return 1\n"
     t.append("def Iq(q, %s):\n%s    return %s" % (", ".join(sig(d, "iq", False)), guard, show(d.Iq, True)))
     if d.vectorized:
         t.append("Iq.vectorized = True")
     if d.Iqxy:
         guard = "    if not (%s > %r):\n        return nan*qx\n" % d.valid if d.valid else ""
+        if getattr(d, "origin_int", False):
+            guard += "    if qx == 0 and qy == 0:\n        return 1\n"
         t.append("def Iqxy(qx, qy, %s):\n%s    return %s" % (", ".join(sig(d, "iq", False)), guard, show(d.Iqxy, True)))
         if d.vectorized:
             t.append("Iqxy.vectorized = True")
@@ -223,7 +232,9 @@ def leaf_direct(d, env, q, mode):
     re = ev(d.modes[mode - 1], env) if (mode and d.modes) else 0.0
     vals = []
     for qq in zip(*q):
-        if len(qq) == 1:
+        if getattr(d, "origin_int", False) and all(float(x) == 0.0 for x in qq):
+            vals.append(1.0)
+        elif len(qq) == 1:
             e2 = dict(env, q=float(qq[0]))
             vals.append(ev(d.Iq, e2))
         else:
@@ -434,6 +445,9 @@ def main(run):
         for m in range(nmesh):
             two_d = m % 3 == 2
             q = [np.array([0.01, 0.07, 0.3])] if not two_d else [np.array([0.02, -0.1, 0.21]), np.array([0.05, 0.08, -0.13])]
+            if getattr(d, "origin_int", False):
+                q = [np.concatenate([[0.0], x]) for x in q]
+                stats["origin_first"] = stats.get("origin_first", 0) + 1
             pars = {}
             for p in kp:
                 if p.name == "n":
@@ -497,10 +511,10 @@ def main(run):
                     Ic = np.asarray(call_kernel(kc, dict(full), cutoff=cutoff))
                     Ip = np.asarray(call_kernel(kpy, dict(full), cutoff=cutoff))
                     Fc = call_Fq(kc, dict(pars, radius_effective_mode=mode), cutoff=cutoff)
-                rawc = sas.raw_sums(kc, 3) if getattr(kc, "result", None) is not None else None
+                rawc = sas.raw_sums(kc, len(q[0])) if getattr(kc, "result", None) is not None else None
                 kpy.result = None
                 Fp = via_mesh(kpy, mode) if unnorm else call_Fq(kpy, dict(pars, radius_effective_mode=mode), cutoff=cutoff)
-                rawp = sas.raw_sums(kpy, 3) if getattr(kpy, "result", None) is not None else None
+                rawp = sas.raw_sums(kpy, len(q[0])) if getattr(kpy, "result", None) is not None else None
             except Exception as exc:  # noqa
                 run.add(Finding("C09:error", "an execution path raised %r" % (exc,), desc))
                 kc.release(); kpy.release()
@@ -514,7 +528,7 @@ def main(run):
             total = int(np.prod(lens))
             leaves = []
             wn = wf = ws = wr = 0.0
-            tot = np.zeros(3)
+            tot = np.zeros(len(q[0]))
             near = False
             for idx in itertools.product(*[range(n) for n in lens]):
                 env = env_of(d, knames, [V[k][i] for k, i in enumerate(idx)])
@@ -569,7 +583,7 @@ def main(run):
             cases.append("(MkPCase %s %s %s %s %d%%nat %s %s %s %s %s %s)" % (
                 nlist(lens), coq_list([flist(list(map(float, w))) for w in W], "(list float)"),
                 coq_list(["(%s, %s, %s)" % (cbool(v), fhex(pj), flist(cs)) for v, pj, cs in leaves], "(bool * float * list float)"),
-                fhex(cutoff), 3, nlist([int(x) for x in cd_p.pd_par[:na]]), nlist([int(x) for x in cd_p.pd_length[:na]]),
+                fhex(cutoff), len(q[0]), nlist([int(x) for x in cd_p.pd_par[:na]]), nlist([int(x) for x in cd_p.pd_length[:na]]),
                 nlist([int(x) for x in cd_c.pd_par[:max_pd]]), nlist([int(x) for x in cd_c.pd_length[:max_pd]]), flist(obs_p), flist(obs_c)))
             metas.append(rep)
             kc.release(); kpy.release()
